@@ -391,4 +391,7 @@ def contact_op(E, env1, tol):
         op = a[0]
         if a != b:
             break
-    return (op or "?") + "+contact"
+    # "~" marks a row that is only within rounding of the shared piece (float32 coordinates of a point on a
+    # slanted edge): which side of the two coinciding lines it is on depends on the last bit
+    exact = found[1][0] <= 1e-12 * max(1.0, float(np.max(np.abs(np.asarray(env1[rg.space_vars(A)[0][0]])))))
+    return (op or "?") + ("+contact" if exact else "+contact~")
